@@ -999,6 +999,104 @@ theorem rtbss_negative_maxR_counterexample :
   split <;> norm_num
 
 
+
+/-! ## `crossSumBestAtBelief`: the support vector Witness and LinearSupport build for a belief
+
+  Both solvers only ever add vectors produced by `crossSumBestAtBelief(b, projections)` for some belief `b` (a corner, a vertex of
+  the current surface, an LP witness point).  The theorems below say that such a vector is a genuine member of the full backup
+  and is optimal at `b`; hence any list assembled this way is a lower bound everywhere and exact at its witness points.
+  Which points the solvers visit (vertex enumeration, witness LPs, agenda) is NOT modelled; that part is only tested. -/
+
+theorem bestAt_mem (n : Nat) (b : Vec) : ∀ (l : List Vec), l ≠ [] → bestAt n b l ∈ l
+  | [], h => absurd rfl h
+  | [x], _ => by simp [bestAt]
+  | x :: y :: r, _ => by
+    have ih := bestAt_mem n b (y :: r) (by simp)
+    unfold bestAt
+    split
+    · exact List.mem_cons_self
+    · exact List.mem_cons_of_mem _ ih
+
+theorem bestAt_value (n : Nat) (b : Vec) : ∀ (l : List Vec), l ≠ [] → dot n b (bestAt n b l) = env n l b
+  | [], h => absurd rfl h
+  | [x], _ => by simp [bestAt, env, lmax]
+  | x :: y :: r, _ => by
+    have ih := bestAt_value n b (y :: r) (by simp)
+    unfold bestAt
+    have e : env n (x :: y :: r) b = if env n (y :: r) b < dot n b x then dot n b x else env n (y :: r) b := by
+      simp only [env, List.map_cons, lmax]
+    rw [e, ← ih]
+    split <;> rfl
+
+theorem bestRowTo_mem (n : Nat) (b : Vec) (k : Nat) (P : Nat → List Vec) (hP : ∀ o, o < k → P o ≠ []) :
+    bestRowTo n b k P ∈ crossTo n k P := by
+  induction k with
+  | zero => simp [bestRowTo, crossTo]
+  | succ k ih =>
+    simp only [bestRowTo, crossTo, crossSum]
+    exact List.mem_flatMap.mpr ⟨_, ih (fun o ho => hP o (by omega)),
+      List.mem_map.mpr ⟨_, bestAt_mem n b (P k) (hP k (by omega)), rfl⟩⟩
+
+theorem bestRowTo_value (n : Nat) (b : Vec) (k : Nat) (P : Nat → List Vec) (hP : ∀ o, o < k → P o ≠ []) :
+    dot n b (bestRowTo n b k P) = env n (crossTo n k P) b := by
+  rw [env_crossTo n k P b hP]
+  induction k with
+  | zero => simp [bestRowTo, sumTo, dot_vzero]
+  | succ k ih =>
+    simp only [bestRowTo, sumTo]
+    rw [dot_vadd, ih (fun o ho => hP o (by omega)), bestAt_value n b (P k) (hP k (by omega))]
+
+theorem mem_unionTo (k : Nat) (G : Nat → List Vec) (a : Nat) (ha : a < k) (x : Vec) (hx : x ∈ G a) : x ∈ unionTo k G := by
+  induction k with
+  | zero => omega
+  | succ k ih =>
+    simp only [unionTo]
+    rcases Nat.lt_or_ge a k with h | h
+    · exact List.mem_append_left _ (ih h)
+    · have : a = k := by omega
+      subst this; exact List.mem_append_right _ hx
+
+/-- the vector returned by `crossSumBestAtBelief(b, projections)` is one of the full backup's vectors … -/
+theorem bestBackupAt_mem (m : Model) (hA : 0 < m.A) (τ : Rat) (Γ : List Vec) (hΓ : Γ ≠ []) (b : Vec) :
+    bestBackupAt m τ Γ b ∈ backupAll m τ Γ := by
+  unfold bestBackupAt backupAll
+  simp only []
+  apply mem_unionTo m.A _ (argmaxTo (m.A - 1) (fun a => dot m.S b (bestRowTo m.S b m.O (projList m τ Γ a))))
+  · have := AITB.MDP.argmaxTo_le (m.A - 1) (fun a => dot m.S b (bestRowTo m.S b m.O (projList m τ Γ a))); omega
+  · exact bestRowTo_mem m.S b m.O _ (fun o _ => projList_ne_nil m τ Γ _ o hΓ)
+
+/-- … and it attains the backup's envelope at `b` -/
+theorem bestBackupAt_value (m : Model) (hA : 0 < m.A) (τ : Rat) (Γ : List Vec) (hΓ : Γ ≠ []) (b : Vec) :
+    dot m.S b (bestBackupAt m τ Γ b) = env m.S (backupAll m τ Γ) b := by
+  obtain ⟨k, hk⟩ : ∃ k, m.A = k + 1 := ⟨m.A - 1, by omega⟩
+  have hk1 : m.A - 1 = k := by omega
+  unfold bestBackupAt backupAll
+  simp only []
+  rw [hk1, hk, env_unionTo m.S k _ b (fun a _ => backupA_ne_nil m τ Γ hΓ a)]
+  have hval : ∀ a, dot m.S b (bestRowTo m.S b m.O (projList m τ Γ a)) = env m.S (backupA m τ Γ a) b :=
+    fun a => bestRowTo_value m.S b m.O _ (fun o _ => projList_ne_nil m τ Γ a o hΓ)
+  rw [hval, AITB.MDP.maxTo_eq_argmax k]
+  have : (fun a => env m.S (backupA m τ Γ a) b) = (fun a => dot m.S b (bestRowTo m.S b m.O (projList m τ Γ a))) := by
+    funext a; exact (hval a).symm
+  rw [this]
+
+/-- **witness_points_exact**: a list made of support vectors of arbitrary points `W` (what Witness and LinearSupport return for one
+    timestep) is dominated by the exact backup everywhere and equals it at every point of `W`.  With `alpha_backup_exact` /
+    `env_backupAll`: the returned surface never exceeds the true value, and is exact at every belief the solver examined. -/
+theorem witness_points_exact (m : Model) (hA : 0 < m.A) (τ : Rat) (Γ : List Vec) (hΓ : Γ ≠ []) (W : List Vec) (hW : W ≠ []) :
+    (∀ b, env m.S (W.map (bestBackupAt m τ Γ)) b ≤ env m.S (backupAll m τ Γ) b) ∧
+    (∀ w ∈ W, env m.S (W.map (bestBackupAt m τ Γ)) w = env m.S (backupAll m τ Γ) w) := by
+  have hne : W.map (bestBackupAt m τ Γ) ≠ [] := by simpa using hW
+  have hsub : ∀ α ∈ W.map (bestBackupAt m τ Γ), α ∈ backupAll m τ Γ := by
+    intro α hα
+    obtain ⟨w, _, rfl⟩ := List.mem_map.mp hα
+    exact bestBackupAt_mem m hA τ Γ hΓ w
+  refine ⟨fun b => env_mono _ _ _ b hne hsub, ?_⟩
+  intro w hw
+  apply le_antisymm (env_mono _ _ _ w hne hsub)
+  rw [← bestBackupAt_value m hA τ Γ hΓ w]
+  exact env_ge _ _ _ _ (List.mem_map.mpr ⟨w, hw, rfl⟩)
+
 /-! ## the hypotheses are satisfiable by a non-trivial model -/
 
 /-- two states, two actions, two noisy observations -/
